@@ -43,6 +43,7 @@ def dispatch (line : String) : Verdict :=
   | "C16" :: args => c16 args r
   | "C20" :: args => handVerdict "C20" args r
   | "C08" :: "resp" :: args => c19 ("resp" :: args) r
+  | "C08" :: "accept" :: args => c19 ("accept" :: args) r
   | "C08" :: args => handVerdict "C08" args r
   | "C09" :: args => handVerdict "C09" args r
   | "C10" :: args => handVerdict "C10" args r
